@@ -292,6 +292,7 @@ var c03CookieVariants = []c03CV{
 	// byte of the plaintext, the decoded structure stays well-formed); name, timestamp and signature are
 	// the genuine ones. Sent after the genuine cookie has been presented in the same process.
 	{Name: "tamper-value-tail"},
+	{Name: "tamper-tail-unsigned"}, // the same alteration with the signature cut off ("value|timestamp|")
 	{Name: "tamper-ts"},
 	{Name: "tamper-sig"},
 	{Name: "sig-stripped"},
@@ -680,6 +681,12 @@ func (w *c03World) craft(op c03Op, x *c03Login) (hdr string, note string, err er
 		return c03Header([]c03Pair{{x.CookieName, c03TamperPart(x.CookieValue, 0)}}), "", nil
 	case "tamper-value-tail":
 		return c03Header([]c03Pair{{x.CookieName, c03TamperTail(x.CookieValue)}}), "", nil
+	case "tamper-tail-unsigned":
+		ps := strings.Split(c03TamperTail(x.CookieValue), "|")
+		if len(ps) == 3 {
+			ps[2] = ""
+		}
+		return c03Header([]c03Pair{{x.CookieName, strings.Join(ps, "|")}}), "", nil
 	case "tamper-ts":
 		return c03Header([]c03Pair{{x.CookieName, c03TamperPart(x.CookieValue, 1)}}), "", nil
 	case "tamper-sig":
